@@ -48,21 +48,52 @@ func structDiff(a, b interface{}) []difference {
 	va, vb := reflect.ValueOf(a), reflect.ValueOf(b)
 	if !va.IsValid() || !vb.IsValid() {
 		if va.IsValid() != vb.IsValid() {
-			d.add("", "", fmt.Sprintf("%v vs %v", a, b))
+			d.add("%v vs %v", a, b)
 		}
 		return d.out
 	}
-	d.walk("", "", addressable(va), addressable(vb), false)
+	d.walk(addressable(va), addressable(vb), false)
 	return d.out
 }
 
-type differ struct{ out []difference }
-
-func (d *differ) add(path, where, format string, a ...interface{}) {
-	if len(d.out) < maxDiffs {
-		d.out = append(d.out, difference{Path: path, Where: where, Detail: fmt.Sprintf(format, a...)})
-	}
+// seg is one step of the position inside a value: a field name, or an index / map key.
+type seg struct {
+	field string
+	index string // "#": slice / array step (position i); "k": map step (key)
+	i     int
+	key   reflect.Value
 }
+
+type differ struct {
+	out   []difference
+	stack []seg // the current position; formatted only when a difference is recorded
+}
+
+func (d *differ) add(format string, a ...interface{}) {
+	if len(d.out) >= maxDiffs {
+		return
+	}
+	path, where := "", ""
+	for _, s := range d.stack {
+		switch {
+		case s.index == "#":
+			path += "[]"
+			where += fmt.Sprintf("[%d]", s.i)
+		case s.index != "":
+			path += "[]"
+			where += "[" + fmt.Sprint(s.key) + "]"
+		case path == "":
+			path, where = s.field, s.field
+		default:
+			path += "." + s.field
+			where += "." + s.field
+		}
+	}
+	d.out = append(d.out, difference{Path: path, Where: where, Detail: fmt.Sprintf(format, a...)})
+}
+
+func (d *differ) push(s seg) { d.stack = append(d.stack, s) }
+func (d *differ) pop()       { d.stack = d.stack[:len(d.stack)-1] }
 
 func addressable(v reflect.Value) reflect.Value {
 	if v.CanAddr() {
@@ -80,13 +111,6 @@ func field(v reflect.Value, i int) reflect.Value {
 		f = reflect.NewAt(f.Type(), unsafe.Pointer(f.UnsafeAddr())).Elem()
 	}
 	return f
-}
-
-func join(path, name string) string {
-	if path == "" {
-		return name
-	}
-	return path + "." + name
 }
 
 func short(b []byte) string {
@@ -118,12 +142,12 @@ func appString(v reflect.Value) string {
 	return fmt.Sprintf("%T(def %x)", app, b)
 }
 
-func (d *differ) walk(path, where string, a, b reflect.Value, sigSlot bool) {
+func (d *differ) walk(a, b reflect.Value, sigSlot bool) {
 	if len(d.out) >= maxDiffs {
 		return
 	}
 	if a.Type() != b.Type() {
-		d.add(path, where, "type %s vs %s", a.Type(), b.Type())
+		d.add("type %s vs %s", a.Type(), b.Type())
 		return
 	}
 	t := a.Type()
@@ -131,43 +155,43 @@ func (d *differ) walk(path, where string, a, b reflect.Value, sigSlot bool) {
 	case t == bigIntPtrType:
 		x, y := a.Interface().(*big.Int), b.Interface().(*big.Int)
 		if (x == nil) != (y == nil) {
-			d.add(path, where, "big.Int %v vs %v", x, y)
+			d.add("big.Int %v vs %v", x, y)
 		} else if x != nil && x.Cmp(y) != 0 {
-			d.add(path, where, "big.Int %v vs %v", x, y)
+			d.add("big.Int %v vs %v", x, y)
 		}
 		return
 	case t.Kind() == reflect.Struct && t.ConvertibleTo(timeType) && timeType.ConvertibleTo(t):
 		x, y := a.Convert(timeType).Interface().(time.Time), b.Convert(timeType).Interface().(time.Time)
 		if !x.Equal(y) || x.UnixNano() != y.UnixNano() {
-			d.add(path, where, "time %d vs %d (UnixNano)", x.UnixNano(), y.UnixNano())
+			d.add("time %d vs %d (UnixNano)", x.UnixNano(), y.UnixNano())
 		}
 		return
 	case t == appType:
 		if x, y := appString(a), appString(b); x != y {
-			d.add(path, where, "app %s vs %s", x, y)
+			d.add("app %s vs %s", x, y)
 		}
 		return
 	}
 	switch t.Kind() {
 	case reflect.Bool:
 		if a.Bool() != b.Bool() {
-			d.add(path, where, "%v vs %v", a.Bool(), b.Bool())
+			d.add("%v vs %v", a.Bool(), b.Bool())
 		}
 	case reflect.Int, reflect.Int8, reflect.Int16, reflect.Int32, reflect.Int64:
 		if a.Int() != b.Int() {
-			d.add(path, where, "%d vs %d", a.Int(), b.Int())
+			d.add("%d vs %d", a.Int(), b.Int())
 		}
 	case reflect.Uint, reflect.Uint8, reflect.Uint16, reflect.Uint32, reflect.Uint64, reflect.Uintptr:
 		if a.Uint() != b.Uint() {
-			d.add(path, where, "%d vs %d", a.Uint(), b.Uint())
+			d.add("%d vs %d", a.Uint(), b.Uint())
 		}
 	case reflect.Float32, reflect.Float64:
 		if a.Float() != b.Float() {
-			d.add(path, where, "%v vs %v", a.Float(), b.Float())
+			d.add("%v vs %v", a.Float(), b.Float())
 		}
 	case reflect.String:
 		if a.String() != b.String() {
-			d.add(path, where, "string (%d bytes) vs (%d bytes)", a.Len(), b.Len())
+			d.add("string (%d bytes) vs (%d bytes)", a.Len(), b.Len())
 		}
 	case reflect.Array:
 		if t.Elem().Kind() == reflect.Uint8 {
@@ -175,84 +199,94 @@ func (d *differ) walk(path, where string, a, b reflect.Value, sigSlot bool) {
 			reflect.Copy(reflect.ValueOf(x), a)
 			reflect.Copy(reflect.ValueOf(y), b)
 			if !bytes.Equal(x, y) {
-				d.add(path, where, "%s vs %s", short(x), short(y))
+				d.add("%s vs %s", short(x), short(y))
 			}
 			return
 		}
 		for i := 0; i < a.Len(); i++ {
-			d.walk(path+"[]", fmt.Sprintf("%s[%d]", where, i), a.Index(i), b.Index(i), false)
+			d.push(seg{index: "#", i: i})
+			d.walk(a.Index(i), b.Index(i), false)
+			d.pop()
 		}
 	case reflect.Slice:
 		if t.Elem().Kind() == reflect.Uint8 {
 			x, y := a.Bytes(), b.Bytes()
 			if sigSlot && (x == nil) != (y == nil) {
-				d.add(path, where, "signature slot %s vs %s (nil = no signature)", short(x), short(y))
+				d.add("signature slot %s vs %s (nil = no signature)", short(x), short(y))
 			} else if !bytes.Equal(x, y) {
-				d.add(path, where, "%s vs %s", short(x), short(y))
+				d.add("%s vs %s", short(x), short(y))
 			}
 			return
 		}
 		if a.Len() != b.Len() {
-			d.add(path, where, "length %d vs %d", a.Len(), b.Len())
+			d.add("length %d vs %d", a.Len(), b.Len())
 			return
 		}
 		for i := 0; i < a.Len(); i++ {
-			d.walk(path+"[]", fmt.Sprintf("%s[%d]", where, i), a.Index(i), b.Index(i), sigSlot)
+			d.push(seg{index: "#", i: i})
+			d.walk(a.Index(i), b.Index(i), sigSlot)
+			d.pop()
 		}
 	case reflect.Map:
 		if a.Len() != b.Len() {
-			d.add(path, where, "map with %d vs %d entries", a.Len(), b.Len())
+			d.add("map with %d vs %d entries", a.Len(), b.Len())
 			return
 		}
 		keys := a.MapKeys()
-		sort.Slice(keys, func(i, j int) bool { return fmt.Sprint(keys[i]) < fmt.Sprint(keys[j]) })
+		if len(keys) > 1 {
+			sort.Slice(keys, func(i, j int) bool { return fmt.Sprint(keys[i]) < fmt.Sprint(keys[j]) })
+		}
 		for _, k := range keys {
 			y := b.MapIndex(k)
 			if !y.IsValid() {
-				d.add(path, where, "key %v missing", k)
+				d.add("key %v missing", k)
 				continue
 			}
-			d.walk(path+"[]", fmt.Sprintf("%s[%v]", where, k), addressable(a.MapIndex(k)), addressable(y), false)
+			d.push(seg{index: "k", key: k})
+			d.walk(addressable(a.MapIndex(k)), addressable(y), false)
+			d.pop()
 		}
 	case reflect.Ptr:
 		if a.IsNil() || b.IsNil() {
 			if a.IsNil() != b.IsNil() {
-				d.add(path, where, "pointer nil=%v vs nil=%v", a.IsNil(), b.IsNil())
+				d.add("pointer nil=%v vs nil=%v", a.IsNil(), b.IsNil())
 			}
 			return
 		}
-		d.walk(path, where, a.Elem(), b.Elem(), false)
+		d.walk(a.Elem(), b.Elem(), false)
 	case reflect.Interface:
 		if a.IsNil() || b.IsNil() {
 			if a.IsNil() != b.IsNil() {
-				d.add(path, where, "interface nil=%v vs nil=%v", a.IsNil(), b.IsNil())
+				d.add("interface nil=%v vs nil=%v", a.IsNil(), b.IsNil())
 			}
 			return
 		}
 		x, y := a.Elem(), b.Elem()
 		if x.Type() != y.Type() {
-			d.add(path, where, "dynamic type %s vs %s", x.Type(), y.Type())
+			d.add("dynamic type %s vs %s", x.Type(), y.Type())
 			return
 		}
 		if mx, ok := a.Interface().(encoding.BinaryMarshaler); ok {
 			bx, ex := mx.MarshalBinary()
 			by, ey := b.Interface().(encoding.BinaryMarshaler).MarshalBinary()
 			if ex != nil || ey != nil {
-				d.add(path, where, "MarshalBinary errors %v / %v", ex, ey)
+				d.add("MarshalBinary errors %v / %v", ex, ey)
 			} else if !bytes.Equal(bx, by) {
-				d.add(path, where, "%s %s vs %s", x.Type(), short(bx), short(by))
+				d.add("%s %s vs %s", x.Type(), short(bx), short(by))
 			}
 			return
 		}
-		d.walk(path, where, addressable(x), addressable(y), false)
+		d.walk(addressable(x), addressable(y), false)
 	case reflect.Struct:
 		for i := 0; i < t.NumField(); i++ {
 			name := t.Field(i).Name
 			slots := name == "Sigs" && (t == txType || t == signedType)
-			d.walk(join(path, name), join(where, name), field(a, i), field(b, i), slots)
+			d.push(seg{field: name})
+			d.walk(field(a, i), field(b, i), slots)
+			d.pop()
 		}
 	default:
-		d.add(path, where, "comparator: unsupported kind %s", t.Kind())
+		d.add("comparator: unsupported kind %s", t.Kind())
 	}
 }
 
